@@ -14,16 +14,16 @@ import (
 )
 
 type mgSite struct {
-	ns   string // type global local label comdat attr metadata blockaddr_func blockaddr_block uselistorder
-	name string
+	ns    string // type global local label comdat attr metadata blockaddr_func blockaddr_block uselistorder
+	name  string
 	where string
 }
 
 // skeleton of one top-level entity, for the model (Model/Skeleton.v)
 type mgTop struct {
-	ns     string // type comdat global attr metadata
-	id     string // token of the definition (%T0, @g0, $c0, #0, !0)
-	kind   string // plain opaque alias:<target>
+	ns     string   // type comdat global attr metadata
+	id     string   // token of the definition (%T0, @g0, $c0, #0, !0)
+	kind   string   // plain opaque alias:<target>
 	uses   []string // ns=token
 	blocks []string
 	baddrs []string // @f=%b
@@ -36,9 +36,9 @@ type modGen struct {
 	r      *rng
 	b      strings.Builder
 	sites  []mgSite
-	fault  int // index of the use site to redirect (-1: none)
+	fault  int      // index of the use site to redirect (-1: none)
 	defs   []string // definitions (ns:name) in textual order
-	dup    int // index of the definition to duplicate (-1: none)
+	dup    int      // index of the definition to duplicate (-1: none)
 	dupOut []string // text of the duplicated definition
 	curFn  string
 }
